@@ -279,7 +279,12 @@ def run_subselect_side(ctx, i, r):
         inner = ' AND '.join(c for c in inner.split(' AND ') if not c.startswith('g ')) if inner else inner
     # limits that order differently as numbers and as text (10 / 3, 25 / 4, 8 / 20), equal ones, only one of the two
     k, lim = r.choice([(None, None), (3, None), (None, 3), (10, 3), (3, 10), (25, 4), (8, 20), (20, 8), (5, 5), (100, 9), (9, 100), (1, 10)])
-    a = f"SELECT * FROM (SELECT * FROM int1.series{' WHERE ' + inner if inner else ''}{' LIMIT %d' % k if k else ''}) AS t JOIN mindsdb.{model} AS m{' WHERE ' + outer if outer else ''}{' LIMIT %d' % lim if lim else ''}"
+    # a clause the join with a time-series model does not allow, written INSIDE the sub-select (flat spelling: at the end of the statement):
+    # rejected in both spellings
+    forbidden = r.choice([''] * 3 + [' ORDER BY ts', ' GROUP BY g', ' GROUP BY g HAVING count(*) > 0', ' ORDER BY v DESC', ' HAVING count(*) > 1'])
+    if forbidden:
+        k = None
+    a = f"SELECT * FROM (SELECT * FROM int1.series{' WHERE ' + inner if inner else ''}{forbidden}{' LIMIT %d' % k if k else ''}) AS t JOIN mindsdb.{model} AS m{' WHERE ' + outer if outer else ''}{' LIMIT %d' % lim if lim else ''}"
     conds = []
     for c in (inner.split(' AND ') if inner else []):
         c = c.strip()
@@ -287,7 +292,8 @@ def run_subselect_side(ctx, i, r):
     if outer:
         conds.append(outer)
     L = min([x for x in (k, lim) if x], default=None)
-    b = f"SELECT * FROM int1.series AS t JOIN mindsdb.{model} AS m{' WHERE ' + ' AND '.join(conds) if conds else ''}{' LIMIT %d' % L if L else ''}"
+    fb = forbidden.replace(' ts', ' t.ts').replace(' g', ' t.g').replace(' v ', ' t.v ')
+    b = f"SELECT * FROM int1.series AS t JOIN mindsdb.{model} AS m{' WHERE ' + ' AND '.join(conds) if conds else ''}{fb}{' LIMIT %d' % L if L else ''}"
     kw, desc = fedgen.catalog(r, form=[0, 1, 3, 5][i % 4])
     acc.ev()
     out = []
@@ -299,6 +305,12 @@ def run_subselect_side(ctx, i, r):
         except Exception as e:
             out.append(('raised', type(e).__name__ + ': ' + str(e)[:120]))
     acc.count('subselect_side_checked')
+    if forbidden:
+        acc.count('subselect_side_forbidden_clause')
+        if out[0][0] != 'rejected':
+            acc.fail({'part': 'forbidden-clause-inside-subselect-data-side-not-rejected', 'clause': forbidden.split()[0] + ' ' + forbidden.split()[1], 'outcome': out[0][0]},
+                     {'text': a, 'plan': out[0][1][:800], 'catalog': desc})
+        return
     if out[0][0] == 'plan' and out[1][0] == 'plan':
         acc.key('subselect-side', model, inner, outer, k, lim)
     if out[0] != out[1]:
